@@ -31,15 +31,24 @@ def check(ctx):
               if render(p.site_expr(s)) == "libp2p_swarm::connection::Shutdown::None{}"]
     ctx.floor("busy-reset", "*shutdown = Shutdown::None", resets, 1)
     rb = lib.bbs(resets)
+    muxpoll = lib.bbs(p.call_sites(r"StreamMuxerExt::poll_unpin$"))
+    kb = lib.bbs(kat)
     for name, pat in atoms:
-        fe = lib.switch_edges_on(p, pat, {"false"})
-        ctx.ob("busy-reset", "floor:%s false edge" % name, len(fe) == 1, nontrivial=False, msg=str(sorted(fe)))
-        for _, t in fe:
-            muxpoll = lib.bbs(p.call_sites(r"StreamMuxerExt::poll_unpin$"))
-            ctx.passes("busy-reset", "busy (%s) resets the idle timer" % name, p, [t], muxpoll + p.return_blocks(), rb,
-                       "*shutdown = Shutdown::None before continuing", "%s:%d" % (p.file, p.line))
-            kb = lib.bbs(kat)
-            r = p.reachable([t], stop_nodes=muxpoll)
+        # where "this atom is false (busy)" becomes known: the false edge of a switch on the atom, or -- when the
+        # conjunction was hoisted into a bool local -- the block after `local = <atom>` with local := false
+        starts = [([t], None) for _, t in lib.switch_edges_on(p, pat, {"false"})]
+        for l in p._bool_switch_locals:
+            for d in p.defs.get(l, []):
+                e = p.rvalue_expr(d[3]) if d[0] == "stmt" else p.call_expr(d[3], d[1])
+                if e[0] != "const" and re.search(pat, render(e)):
+                    starts.append((list(p.succ[d[1]]) if d[0] == "call" else [d[1]], {l: False}) if d[0] == "call" else ([d[1]], None))
+        ctx.ob("busy-reset", "floor:%s busy edge" % name, len(starts) == 1, nontrivial=False, msg=str([(a, bool(b)) for a, b in starts]))
+        for st, env in starts:
+            r = p.reachable_bool(st, env=env, blocked_nodes=rb)
+            ok = not (set(muxpoll + p.return_blocks()) & r)
+            ctx.ob("busy-reset", "busy (%s) resets the idle timer" % name, ok, "%s:%d" % (p.file, p.line),
+                   ("all paths pass: " if ok else "a path avoids: ") + "*shutdown = Shutdown::None before continuing")
+            r = p.reachable_bool(st, env=env, stop_nodes=muxpoll)
             ctx.ob("busy-reset", "busy (%s) cannot time out in this pass" % name, not (set(kb) & r), "", "no KeepAliveTimeout reachable before muxer poll")
     # arguments of compute_new_shutdown
     cs = p.call_sites(r"connection::compute_new_shutdown$")
